@@ -171,7 +171,8 @@ def handleParams : Handler := fun op =>
     let opt ← pOpt
     let kept ← pNat
     let sg ← pSigma
-    let cfg : Config := Config.mk est n nl m r gp unc opt kept sg
+    let cells ← pBool
+    let cfg : Config := Config.mk est n nl m r gp unc opt kept sg cells
     return outOutcome (resolve cfg)
   | _ => none
 
